@@ -13,9 +13,9 @@ structure MCert where
   deriving Inhabited
 
 def pairId (c : Char) : Option Nat :=
-  if c == 'A' then some 0 else if c == 'B' then some 1 else if c == 'C' then some 2 else if c == 'E' then some 3 else none
+  if c == 'A' then some 0 else if c == 'B' then some 1 else if c == 'C' then some 2 else if c == 'E' then some 3 else if c == 'D' then some 4 else none
 
-def pairName (n : Nat) : String := (["A", "B", "C", "E"].getD n "?")
+def pairName (n : Nat) : String := (["A", "B", "C", "E", "D"].getD n "?")
 
 /-- what a read of a file in the named state yields (validity is known by construction: the
 harness writes these states; only a complete PEM block counts) -/
